@@ -19,7 +19,9 @@ Print Assumptions C08_other_id_dropped.
 (** the next expected request is executed exactly once, the window advances by one, the response is stored and
     carries version 2.0, the IKE_SA's SPIs, the request's exchange type, the R flag, the sender's role and the
     request's Message ID *)
-Theorem C08_next_request_executed_once : forall (P : iface) (s : sa P) (m : pmsg (B P)),
+Theorem C08_next_request_executed_once : forall (P : iface),
+  (forall i z, ipeer_spi P (set_state P i z) = ipeer_spi P i) ->
+  forall (s : sa P) (m : pmsg (B P)),
   h_id (p_hdr m) = peer_id P s -> existsb (Z.eqb (h_exch (p_hdr m))) request_exchanges = true ->
   exists s' d,
     process_request P s m = (s', Some d) /\
@@ -32,7 +34,7 @@ Theorem C08_next_request_executed_once : forall (P : iface) (s : sa P) (m : pmsg
                   | HErr _ => set_state P (fst (handle_request P (inner P s) m)) ST_DELETED
                   end) /\
     d_body d = (match snd (handle_request P (inner P s) m) with HOk b => b | HErr b => b end) /\
-    d_hdr d = mk_hdr (spi_i P s) (spi_r P s) 2 0 (h_exch (p_hdr m)) true (is_init P s) (peer_id P s).
+    d_hdr d = mk_hdr (spi_i P s') (spi_r P s') 2 0 (h_exch (p_hdr m)) true (is_init P s) (peer_id P s).
 Proof. exact request_next_executed_once. Qed.
 Print Assumptions C08_next_request_executed_once.
 
